@@ -91,5 +91,5 @@ func verifAnd(a, b bool) bool     { return a && b }
 func verifOr(a, b bool) bool      { return a || b }
 func verifImplies(a, b bool) bool { return !a || b }
 func verifObserve(label string, v any) {
-	veriffmt.Printf("VERIF-OBSERVE %s=%v\n", label, v)
+	veriffmt.Printf("VERIF-OBSERVE %s=%q\n", label, veriffmt.Sprint(v))
 }
